@@ -187,6 +187,10 @@ func runC01(c *Ctx) {
 		{name: "tagged-long", cfg: func(h *harness.Config) {
 			h.Comps = &harness.CompSpec{Items: []harness.Comp{{Value: "foo", Tag: "t1", Desc: "same"}, {Value: "fob", Tag: "t1", Desc: "same"}, {Value: "f" + strings.Repeat("x", 50), Tag: "t2"}, {Value: "中文", Tag: "t2", Desc: "wide"}}}
 		}},
+		{name: "aliased-wide-narrow", cfg: func(h *harness.Config) {
+			h.W, h.H = 20, 10
+			h.Comps = &harness.CompSpec{Items: []harness.Comp{{Value: "foo中文-long-value", Desc: "宽"}, {Value: "fob中文-long-value", Desc: "宽"}, {Value: "fox", Desc: "other"}}}
+		}},
 		{name: "editor-keep", cfg: func(h *harness.Config) { h.Editor = "keep" }},
 		{name: "editor-empty", cfg: func(h *harness.Config) { h.Editor = "empty" }},
 		{name: "narrow", cfg: func(h *harness.Config) { h.W, h.H = 8, 6 }},
